@@ -318,4 +318,98 @@ theorem rowOK_print (f : File) (hwf : f.wf) (r : Row) (c : CellLay) (hr : r.wf f
     rw [chanOf_name]
     exact (hsel n hn').2
 
+/-! ### the whole file -/
+
+theorem printLine_ok (toks : List Str) (lay : LineLay) (hne : toks ≠ []) (ht : ∀ t ∈ toks, isTok t) (hl : lay.wf) :
+    printLine toks lay ≠ [] ∧ ∀ c ∈ printLine toks lay, c ≠ 10 := by
+  obtain ⟨hlead, htrail, hseps⟩ := hl
+  cases toks with
+  | nil => exact absurd rfl hne
+  | cons t ts =>
+    obtain ⟨a, X, hB, _⟩ := interleave_head t ts lay.seps (ht t (by simp))
+    refine ⟨by simp [printLine, hB], ?_⟩
+    intro c hc
+    simp only [printLine, List.mem_append] at hc
+    rcases hc with (hc | hc) | hc
+    · rcases hlead c hc with h | h | h | h | h <;> omega
+    · rcases interleave_chars (t :: ts) lay.seps ht hseps c hc with h | h
+      · omega
+      · rcases h with h | h | h | h | h <;> omega
+    · rcases htrail c hc with h | h | h | h | h <;> omega
+
+theorem sel_tok (f : File) (hwf : f.wf) : ∀ t ∈ f.sel, isTok t := by
+  obtain ⟨hd, _, _, _, _, _, _, hsel, _⟩ := hwf
+  intro t ht
+  obtain ⟨d, hdm, hdn⟩ := List.mem_map.mp (hsel t ht).1
+  rw [← hdn]
+  exact isName_isTok (hd d hdm).1.1
+
+theorem lines_ok (f : File) (hwf : f.wf) : ∀ l ∈ f.lines, l ≠ [] ∧ ∀ c ∈ l, c ≠ 10 := by
+  have hst := sel_tok f hwf
+  obtain ⟨hd, _, _, _, _, hne, _, _, hhl, hrows⟩ := hwf
+  intro l hl
+  simp only [File.lines, List.mem_append, List.mem_cons, List.mem_map] at hl
+  rcases hl with ⟨d, hdm, rfl⟩ | rfl | ⟨r, hrm, rfl⟩
+  · exact printLine_ok _ _ (by simp [declTokens]) (declTokens_tok d.1 (hd d hdm).1) (hd d hdm).2
+  · exact printLine_ok _ _ (by simp [headerTokens]) (headerTokens_tok f.sel hst) hhl
+  · exact printLine_ok _ _ (by simp [rowTokens]) (rowTokens_tok _ r.1 r.2.2 (hrows r hrm).1) (hrows r hrm).2
+
+theorem rowTokens_length (r : Row) (c : CellLay) : (rowTokens r c).length = 3 + r.nums.length := by
+  simp [rowTokens]; omega
+
+/-- the scanner phase on a printed file: the state after the last line -/
+theorem loop_file (f : File) (hwf : f.wf) :
+    ∃ st, loop false {} f.lines = .ok st ∧ st.chans = (headerTokens f.sel).map (chanOf f) ∧
+      st.table = columns [] (headerTokens f.sel).length (f.rows.map (fun r => rowTokens r.1 r.2.2)) := by
+  have hst := sel_tok f hwf
+  have hmk := hdr_mk f hwf
+  have hnd' := hdr_nodup f hwf
+  obtain ⟨hd, hnd, _, _, _, hne, _, _, hhl, hrows⟩ := hwf
+  have h0 : ({} : St) = ⟨[], true, [], [], []⟩ := rfl
+  have hrowsF : List.Forall₂ (fun l t => splitWs (prep l) = t ∧ t.length = (headerTokens f.sel).length)
+      (f.rows.map (fun r => printLine (rowTokens r.1 r.2.2) r.2.1)) (f.rows.map (fun r => rowTokens r.1 r.2.2)) := by
+    apply forall₂_map
+    intro r hr
+    obtain ⟨hrw, hlw⟩ := hrows r hr
+    have htok := rowTokens_tok _ r.1 r.2.2 hrw
+    refine ⟨?_, ?_⟩
+    · rw [prep_printLine _ _ (by simp [rowTokens]) htok hlw, splitWs_interleave _ _ htok hlw.2.2]
+    · rw [rowTokens_length, hrw.2.2.2.2.2.2.2.2.2.2.1]; simp [headerTokens]; omega
+  have hadd := addChannels_ok (dictOf f) (chanOf f) (headerTokens f.sel) [] [] hmk hnd' (by intro n _ c hc; simp at hc)
+  simp only [List.nil_append] at hadd
+  have hlen : (headerTokens f.sel).length = ((headerTokens f.sel).map (chanOf f)).length := by simp
+  refine ⟨⟨dictOf f, false, headerTokens f.sel, (headerTokens f.sel).map (chanOf f),
+    (f.rows.map (fun r => rowTokens r.1 r.2.2)).foldl appendRow (List.replicate (headerTokens f.sel).length [])⟩, ?_, rfl, ?_⟩
+  · rw [File.lines, h0, loop_decls false f.decls [] _ hd hnd (by intro d _ e he; simp at he)]
+    show loop false ⟨dictOf f, true, [], [], []⟩ _ = _
+    rw [loop_header false (dictOf f) f.sel f.hdrLay _ hne hst hhl, hadd]
+    simp only []
+    exact loop_data (dictOf f) _ _ hlen (headerTokens f.sel).length _ _ _ (by simp) hrowsF
+  · simp only []
+    rw [foldl_appendRow (headerTokens f.sel).length _ _ (by simp)]
+    · have := zipWith_replicate_nil (columns [] (headerTokens f.sel).length (f.rows.map (fun r => rowTokens r.1 r.2.2)))
+      rw [columns_length] at this
+      exact this
+    · intro t ht
+      obtain ⟨r, hr, rfl⟩ := List.mem_map.mp ht
+      rw [rowTokens_length, (hrows r hr).1.2.2.2.2.2.2.2.2.2.2.1]; simp [headerTokens]; omega
+
+/-- parsing a printed file gives the content -/
+theorem parse_print (f : File) (hwf : f.wf) : parseFile (print f) = .ok (expected f) := by
+  obtain ⟨st, hloop, hch, htab⟩ := loop_file f hwf
+  have hrowsOK : List.Forall₂ (rowOK ((headerTokens f.sel).map (chanOf f)))
+      (f.rows.map (fun r => rowTokens r.1 r.2.2)) (f.rows.map (fun r => cellValues r.1)) := by
+    apply forall₂_map'
+    intro r hr
+    exact rowOK_print f hwf r.1 r.2.2 (hwf.2.2.2.2.2.2.2.2.2 r hr).1
+  have hconv := convertAll_columns _ _ _ hrowsOK
+  rw [List.length_map] at hconv
+  unfold parseFile print
+  rw [splitLines_joinLines _ _ (lines_ok f hwf)]
+  unfold parseLines
+  rw [hloop]
+  simp only [hch, htab, List.length_map, columns_length]
+  rw [if_neg (by simp [headerTokens]), if_neg (by simp), hconv]
+  rfl
+
 end TD.C14
